@@ -863,9 +863,45 @@ def check_operators(ctx, rng):
 
 # --------------------------------------------------------------------------
 
+def run_reassign(ctx):
+    """a value item given a new text says afterwards what a fresh item made from that text says (no unit, sign, type
+    or channel left over from the old text).  Search only."""
+    import cssutils
+    import xml.dom
+    from harness import impl
+    NUM = ['12px', '1.5', '50%', '-3em', '+2', '0', '7', '0.25in', '100', '-0.5%']
+    COL = ['red', '#abc', '#a1b2c3', 'rgb(1, 2, 3)', 'rgba(1, 2, 3, 0.5)', 'hsl(120, 100%, 50%)', 'blue']
+    URL = ['url(a.png)', 'url("b c.png")', 'url()']
+
+    def obs(it):
+        return tuple(repr(getattr(it, a, None)) for a in ('cssText', 'type', 'value', 'dimension', 'red', 'green', 'blue', 'alpha', 'uri'))
+    for pool in (NUM, COL, URL):
+        for old in pool:
+            for new in pool:
+                impl.reset()
+                case = {'family': 'reassign', 'old': old, 'new': new}
+                ctx.case(('reassign', old, new))
+                try:
+                    sheet = cssutils.parseString('a { x-w: %s }' % old)
+                    it = sheet.cssRules[0].style.getProperties()[0].propertyValue[0]
+                    fresh = cssutils.parseString('a { x-w: %s }' % new).cssRules[0].style.getProperties()[0].propertyValue[0]
+                    it.cssText = new
+                    got, want = obs(it), obs(fresh)
+                    text = sheet.cssRules[0].style.getPropertyValue('x-w')
+                    wtext = fresh.cssText
+                except xml.dom.DOMException:
+                    continue
+                except Exception as e:  # noqa
+                    ctx.violation('reassign-raises', case, '%s: %s' % (type(e).__name__, e), KNOWN_PRED)
+                    continue
+                if got != want or text != wtext:
+                    ctx.violation('reassign', case, 'after %r -> %r the item says %r (declaration %r); a fresh item says %r' % (old, new, got, text, want), KNOWN_PRED)
+
+
 def run(ctx):
     quick = ctx.tier == 'quick'
     rng = ctx.rng
+    run_reassign(ctx)
     keys, model_cases = [], []
     ctx.cov['rule'] = ('numbers: decimal literals (3 signs x integer part of 0..19 digits with/without leading zeros or absent x fraction of '
                        '0..6 digits, plus a 7..12 digit stratum; hand-picked carry/zero patterns; magnitudes to 10^18 and the 2^52/10^6 boundary) '
